@@ -10,7 +10,10 @@ import (
 	"os"
 	"os/exec"
 	"path/filepath"
+	"regexp"
+	"runtime"
 	"runtime/pprof"
+	"strconv"
 	"strings"
 	"sync"
 	"sync/atomic"
@@ -336,6 +339,10 @@ func RunScenarioChild(scratch string, s *Scenario, watchdog time.Duration) (*Res
 	out := filepath.Join(dir, "result.json")
 	b, _ := json.Marshal(s)
 	_ = os.WriteFile(spec, b, 0o644)
+	if d := os.Getenv("VERIF_KEEP_SPECS"); d != "" {
+		_ = os.MkdirAll(d, 0o755)
+		_ = os.WriteFile(filepath.Join(d, strings.ReplaceAll(s.ID, "/", "_")+".json"), b, 0o644)
+	}
 	exe, _ := os.Executable()
 	logf, _ := os.Create(filepath.Join(dir, "log"))
 	cmd := exec.Command(exe, "__scenario", spec, out, dir)
@@ -1042,8 +1049,53 @@ func (x *runner) waitFor(cond func() bool, watchdog time.Duration) bool {
 	return true
 }
 
+var reGoroutineHdr = regexp.MustCompile(`^goroutine \d+ \[([a-zA-Z. ]+), (\d+) minutes\]:$`)
+
+// mutexHang: called when the quiescence barrier did not come back. A goroutine of the service that has been waiting for a
+// sync.Mutex / sync.RWMutex for two minutes or more, with a function of the repository on its stack, is not load: the
+// barrier itself goes through the service's message loops, and one of them is stuck behind a lock nobody gives back.
+// Polls for up to 80 s (the dump counts whole minutes).
+func (x *runner) mutexHang() (site, goroutine string) {
+	for w := 0; w < 17; w++ {
+		buf := make([]byte, 8<<20)
+		dump := string(buf[:runtime.Stack(buf, true)])
+		for _, g := range strings.Split(dump, "\n\n") {
+			lines := strings.Split(g, "\n")
+			m := reGoroutineHdr.FindStringSubmatch(lines[0])
+			if m == nil {
+				continue
+			}
+			if mins, _ := strconv.Atoi(m[2]); mins < 2 {
+				continue
+			}
+			if !strings.Contains(g, "sync.(*Mutex).Lock") && !strings.Contains(g, "sync.(*RWMutex).Lock") && !strings.Contains(g, "sync.(*RWMutex).RLock") {
+				continue
+			}
+			for _, l := range lines[1:] {
+				if strings.HasPrefix(l, "\t") || !strings.Contains(l, "block-headers-service/") || strings.Contains(l, "verifharness") {
+					continue
+				}
+				if i := strings.LastIndex(l, "("); i > 0 {
+					l = l[:i]
+				}
+				return l[strings.Index(l, "block-headers-service/")+len("block-headers-service/"):], g
+			}
+		}
+		time.Sleep(5 * time.Second)
+	}
+	return "", ""
+}
+
 func (x *runner) quiesce(stage string) bool {
 	if err := x.rig.Quiesce(x.st, x.eng, barrierWatchdog); err != nil {
+		if site, g := x.mutexHang(); site != "" {
+			if len(g) > 3000 {
+				g = g[:3000]
+			}
+			x.res.Panic = g
+			x.fail("hang|mutex|"+site, fmt.Sprintf("the service stopped answering at: %s; one of its goroutines has been waiting for a mutex in %s for two minutes or more", stage, site))
+			return false
+		}
 		x.res.Verdict = "inconclusive"
 		x.res.What = "quiescence barrier watchdog fired at: " + stage
 		x.res.Events = x.rig.Log.Tail(40)
